@@ -31,3 +31,27 @@ Example C16_direction_example :
   | Err _ => False
   end.
 Proof. vm_compute. repeat split. Qed.
+
+(* Jobs, operation order, machines and durations of the compiled instance are exactly those of the document's
+   job table - for every document the compiler model accepts. *)
+Theorem C16_jobs_as_written :
+  forall (d : ddoc) (early : bool) (i : inst) (L : labels),
+    compile_inst d early = Ok (i, L) ->
+    map (map (fun oc => (oc_mach oc, oc_dur oc))) (i_jobs i) = map (map (fun md => (fst md, Det (snd md)))) (d_jobs d).
+Proof. exact compile_jobs_as_written. Qed.
+Print Assumptions C16_jobs_as_written.
+
+(* Numbers of machines and AGVs, the standalone buffers (type, capacity, role through custom_buf) and the
+   early-transport switch are the document's, with the documented defaults for what is omitted. *)
+Theorem C16_shape_as_written :
+  forall (d : ddoc) (early : bool) (i : inst) (L : labels),
+    compile_inst d early = Ok (i, L) ->
+    nm d = Ok (length (i_machs i))
+    /\ length (i_trans i) = (match match d_log d with Some lg => dl_amount lg | None => None end with
+                              | Some n => n | None => nj d end)
+    /\ i_bufs i = (match d_bufs d with
+                    | [] => [default_buf RInput; default_buf ROutput]
+                    | l => map (fun e => custom_buf (snd e)) l end)
+    /\ i_early i = early.
+Proof. exact compile_shape_as_written. Qed.
+Print Assumptions C16_shape_as_written.
